@@ -12,6 +12,7 @@ from __future__ import annotations
 
 import itertools
 import math
+import os
 import sys
 import types
 
@@ -613,19 +614,28 @@ class FakeGrbModel:
     def optimize(self):
         self.optimized += 1
 
+    # observed with gurobipy 13: UNBOUNDED (5) MILPs and SUBOPTIMAL (13) QCPs still answer ObjVal / X (a point that need
+    # not satisfy the program); INFEASIBLE (3) raises AttributeError for ObjVal; INF_OR_UNBD (4) answers ObjVal but raises
+    # GurobiError for X
     @property
     def ObjVal(self):
-        if self.Status != 2:
-            raise AttributeError("ObjVal")
+        if self.Status == 3:
+            raise AttributeError("Unable to retrieve attribute 'ObjVal'")
         return self.c.fresh_real("gobj")
 
     def getAttr(self, name):
-        if self.Status != 2:
+        if self.Status == 3:
             raise AttributeError(name)
+        if self.Status == 4:
+            from gurobipy import GurobiError
+            raise GurobiError("Unable to retrieve attribute 'X'")
         return [self.c.fresh_real(f"gx{i}_") for i in range(self.mvars[0].n)]
 
 
 class FakeGp:
+    class GRB:
+        OPTIMAL, INFEASIBLE, INF_OR_UNBD, UNBOUNDED, SUBOPTIMAL = 2, 3, 4, 5, 13
+
     def __init__(self, c, status):
         self.c, self.status, self.made = c, status, []
 
@@ -653,7 +663,7 @@ def gurobi_cases():
                 (2, 2, (0, 0), ("lb", "box"), None, False, (1,)), (2, 2, (1, 0), ("free", "ub"), None, False, (0,)),
                 (2, 2, (0, 0), ("lb", "box"), None, False, ()), (2, 2, (1, 1), ("lb", "box"), "CI", False, ())]
     for nv, m, sense, kinds, vt, cones, empty in configs:
-        for status in (2, 3):                                     # GRB.OPTIMAL, GRB.INFEASIBLE
+        for status in (2, 3, 4, 5, 13):                           # GRB.OPTIMAL, INFEASIBLE, INF_OR_UNBD, UNBOUNDED, SUBOPTIMAL
             def setup(c, nv=nv, m=m, sense=sense, kinds=kinds, vt=vt, cones=cones, status=status, empty=empty):
                 F = sym_formula(c, nv, m, sense, kinds, vt, cones, empty=empty)
                 if cones:
@@ -769,6 +779,166 @@ def cone_heads():
     return out
 
 
+# ------------------------------------------------------------------------------ real solvers, sampled (bounded stand-in)
+
+def cross_solver_sampled(n_inst, seed, kinds):
+    """BOUNDED, numerical: seeded random programs (LP, MILP with bounds on binaries/integers, SOCP, exp-cone; feasible,
+    infeasible and unbounded) are solved through every installed interface that supports their cones; optimal values
+    must agree within 1e-5 (relative), every returned point must satisfy the compiled program, and an interface that
+    does not reach an optimum must report no solution."""
+    import random
+    import warnings
+    from .. import install
+    from .c18 import _quiet
+    install.uninstall()
+    import rsome as rso
+    from rsome import ro as nro, lpg_solver as lpg, eco_solver as eco, ort_solver as ort
+    solvers = {"scipy": lpg, "ecos": eco, "ortools": ort}
+    try:
+        from rsome import grb_solver as grb
+        solvers["gurobi"] = grb
+    except Exception:
+        pass
+    supports = {"lp": ("scipy", "ecos", "ortools", "gurobi"), "milp": ("scipy", "ecos", "ortools", "gurobi"),
+                "socp": ("ecos", "gurobi"), "exp": ("ecos",)}
+    out = []
+
+    def build(kind, rng):
+        m = nro.Model()
+        n = rng.randint(2, 4)
+        vt = "C"
+        if kind == "milp":
+            vt = rng.choice("BI")
+        x = m.dvar(n, vt)
+        y = m.dvar(2)
+        cost = np.array([rng.choice([-2.0, -1.0, -0.5, 0.5, 1.0, 3.0]) for _ in range(n)])
+        # unbounded instances only for LPs: on unbounded MILP / conic instances the solvers themselves misreport
+        # (ECOS-BB and SCIP answer "optimal" at arbitrary points), which is solver behaviour, not interface code
+        shape = rng.choice(["feasible", "feasible", "feasible", "infeasible", "unbounded" if kind == "lp" else "feasible"])
+        (m.min if rng.random() < 0.5 else m.max)(cost @ x + 0.5 * y.sum())
+        A = np.array([[rng.choice([-2.0, -1.0, 0.0, 1.0, 1.5]) for _ in range(n)] for _ in range(2)])
+        m.st(A @ x + y <= np.array([rng.choice([1.0, 2.5, 4.0]) for _ in range(2)]))
+        m.st(x.sum() - y.sum() == rng.choice([0.0, 0.5, 1.0]))
+        if shape != "unbounded":
+            m.st(y <= 3, y >= -3)
+            if vt == "B":
+                # user bounds on binaries, as bound objects on slices
+                if rng.random() < 0.5:
+                    m.st(x[0] <= 0)
+                if rng.random() < 0.5:
+                    m.st(x[n - 1] >= 1)
+            else:
+                lo = rng.choice([-2.0, 0.0, 0.5])
+                m.st(x >= lo, x <= lo + rng.choice([1.5, 3.0]))
+        if shape == "infeasible":
+            m.st(x[0] + y[0] >= 50)
+        if kind == "socp":
+            m.st(rso.norm(x[:2] - y, 2) <= x[n - 1] + 4, rso.sumsqr(y) <= 4)
+        if kind == "exp":
+            m.st(rso.exp(y[0]) <= x[0] + 3, rso.entropy(x[:2] + 3) >= -20)
+        return m, x, shape
+
+    def satisfied(F, xs, tol=2e-5):
+        A = F.linear.toarray()
+        r = A @ xs - F.const
+        bad = []
+        for i in range(len(r)):
+            if (F.sense[i] == 1 and abs(r[i]) > tol * (1 + abs(F.const[i]))) or (F.sense[i] == 0 and r[i] > tol * (1 + abs(F.const[i]))):
+                bad.append(f"row {i} residual {r[i]:.3g}")
+        for j in range(len(xs)):
+            if xs[j] > F.ub[j] + tol or xs[j] < F.lb[j] - tol:
+                bad.append(f"x{j}={xs[j]:.6g} outside [{F.lb[j]},{F.ub[j]}]")
+            if F.vtype[j] != "C" and abs(xs[j] - round(xs[j])) > 1e-5:
+                bad.append(f"x{j}={xs[j]:.6g} not integral")
+            if F.vtype[j] == "B" and not (-1e-6 <= xs[j] <= 1 + 1e-6):
+                bad.append(f"binary x{j}={xs[j]:.6g}")
+        for q in getattr(F, "qmat", []):
+            if xs[q[0]] < np.linalg.norm(xs[list(q[1:])]) - 1e-4:
+                bad.append(f"cone {list(q)} violated")
+        for e in getattr(F, "xmat", []):
+            a, b, c = (xs[i] for i in e)                   # (a, b, c) in K_exp:  c*exp(a/c) <= b, c > 0   (closure: c = 0, a <= 0, b >= 0)
+            if c <= 1e-6:
+                inside = c >= -1e-6 and a <= 1e-5 and b >= -1e-6
+            else:
+                inside = c * math.exp(min(a / c, 50.0)) <= b + 1e-4 * (1 + abs(b))
+            if not inside:
+                bad.append(f"exp cone {list(e)} violated ({a:.4g},{b:.4g},{c:.4g})")
+        return bad
+
+    for kind in kinds:
+        def run(kind=kind):
+            rng = random.Random(f"{seed}-{kind}")
+            nontrivial = 0
+            for k in range(n_inst):
+                state = rng.getstate()
+                vals, status = {}, {}
+                for sname in supports[kind]:
+                    if sname not in solvers:
+                        continue
+                    rng.setstate(state)
+                    m, x, shape = build(kind, rng)
+                    if sname == "ecos" and kind == "milp" and shape == "unbounded":
+                        # ECOS-BB itself reports "optimal" at its internal 2^23 big-M box on unbounded integer programs
+                        # (and may not terminate): solver behaviour, outside the interface's contract (A-SOLVER)
+                        continue
+                    capped = {}
+                    if sname == "ecos" and kind == "milp":
+                        # rsome lets ECOS-BB run 1e8 iterations; ECOS-BB cycles on some small bounded instances.  Cap the
+                        # iterations for this sampled comparison and leave ECOS out of an instance it does not finish.
+                        real_ecos = eco.ecos
+
+                        class Capped:
+                            __version__ = real_ecos.__version__
+
+                            @staticmethod
+                            def solve(*a, **kw):
+                                kw["mi_max_iters"] = 2000
+                                r = real_ecos.solve(*a, **kw)
+                                capped["flag"] = r["info"]["exitFlag"]
+                                return r
+                        eco.ecos = Capped
+                    with warnings.catch_warnings(), _quiet():
+                        warnings.simplefilter("ignore")
+                        try:
+                            m.solve(solvers[sname], display=False)
+                        except Exception as e:           # noqa
+                            return f"instance {k} ({kind},{shape}) {sname}: solve raised {type(e).__name__}: {e}"
+                        finally:
+                            if capped is not None and sname == "ecos" and kind == "milp":
+                                eco.ecos = real_ecos
+                    if capped.get("flag") in (10, 11, 12):
+                        continue
+                    try:
+                        vals[sname] = m.get()
+                        status[sname] = "optimal"
+                        F = m.do_math()
+                        bad = satisfied(F, np.asarray(m.rc_model.solution.x, dtype=float))
+                        if bad:
+                            return f"instance {k} ({kind},{shape}) {sname}: returned point violates the compiled program: {bad[:3]}"
+                    except RuntimeError:
+                        status[sname] = "none"
+                if len(set(status.values())) > 1:
+                    return f"instance {k} ({kind},{shape}): interfaces disagree on solvability {status}"
+                if shape == "infeasible" and "optimal" in status.values():
+                    return f"instance {k} ({kind}): infeasible by construction but reported optimal {vals}"
+                if vals:
+                    nontrivial += 1
+                    ref = next(iter(vals.values()))
+                    for sname, v in vals.items():
+                        if abs(v - ref) > 1e-5 * (1 + abs(ref)) + (2e-4 if kind in ("socp", "exp") else 0.0):
+                            return f"instance {k} ({kind},{shape}): optimal values differ {vals}"
+            return True
+        obs, _ = check_function("rsome.<solver interfaces> (real solvers)", lambda c: {}, lambda ns, run=run: run(),
+                                [post("interfaces-agree-and-return-feasible-points (sampled)", lambda ns, res: res is True)],
+                                mode="N", label=f"{kind}: {n_inst} seeded instances, interfaces {[s for s in supports[kind] if s in solvers]}",
+                                bounded=True, replay=None)
+        for o in obs:
+            if o["status"] == "violated":
+                o["reason"] = (o.get("reason") or "") + " | " + str(run())
+        out += obs
+    return out
+
+
 class _ProgView:
     """The compiled program with binaries read as integers in [max(lb,0), min(ub,1)] (their meaning)."""
 
@@ -844,9 +1014,13 @@ def plumbing():
 
 
 def jobs(tier):
-    return [{"name": "def_sol-lp", "kind": "lp"}, {"name": "def_sol-milp", "kind": "milp"}, {"name": "ecos", "kind": "ecos"},
+    seed = int(os.environ.get("VERIF_SEED", "0") or 0)
+    n = 12 if tier == "quick" else 150
+    return [{"name": f"cross-solver-{k}", "kind": "cross", "kinds": [k], "n": n, "seed": seed} for k in ("lp", "milp", "socp", "exp")] + [{"name": "def_sol-lp", "kind": "lp"}, {"name": "def_sol-milp", "kind": "milp"}, {"name": "ecos", "kind": "ecos"},
             {"name": "ortools", "kind": "ort"}, {"name": "gurobi", "kind": "grb"}, {"name": "cone-heads", "kind": "heads"}, {"name": "plumbing", "kind": "plumbing"}]
 
 
 def run_job(job):
+    if job["kind"] == "cross":
+        return cross_solver_sampled(job["n"], job["seed"], job["kinds"])
     return {"lp": def_sol_lp, "milp": def_sol_milp, "ecos": ecos_cases, "ort": ortools_cases, "grb": gurobi_cases, "heads": cone_heads, "plumbing": plumbing}[job["kind"]]()
